@@ -41,7 +41,7 @@ ID = 'C19'
 LEVEL = 'exploration'
 P_TARGETS = []
 BUDGET = {'quick': 33.0, 'thorough': 420.0}
-CHUNK = 40
+CHUNK = 10
 BONDS = [0.5, 1, 1.54, 10]
 BOUNDS = {
     'quick': {'atlas': 'all 30 connected graphs with 2..5 nodes x 4 bond lengths x 7 labelings x 2 RNG seeds; '
